@@ -60,6 +60,8 @@ type c19Case struct {
 	parse12      bool           // unparsable quote: 1 or 2
 	desc         []string
 	overrideBoth bool
+	netMode      string                  // "unreachable" | "fake-pcs"
+	resp         map[string]gen.Response // served by the fake PCS
 }
 
 func (c *c19Case) fault(cls int, why string) {
@@ -89,8 +91,30 @@ func mismatchFor(f byteField, actual []byte, s *gen.Stream) []byte {
 }
 
 func drawC19(t *rapid.T, dir string, toolQuote map[string][]byte) *c19Case {
-	c := &c19Case{classes: map[int]string{}}
+	c := &c19Case{classes: map[int]string{}, netMode: "unreachable"}
 	s := gen.NewStream(rapid.Uint64().Draw(t, "content"), "c19")
+	// fault budgets: most cases carry at most one class of fault, so every exit code is exercised
+	allowUsage := rapid.IntRange(0, 3).Draw(t, "allowUsageFaults") == 0
+	allowPolicy := rapid.IntRange(0, 2).Draw(t, "allowPolicyFaults") == 0
+	allowVerify := rapid.IntRange(0, 2).Draw(t, "allowVerifyFaults") == 0
+	pick := func(label string, options []string) string {
+		v := rapid.SampledFrom(options).Draw(t, label)
+		switch v {
+		case "nothex", "toolong", "wronglen", "wide", "garbage", "three", "maybe", "garbage-binary", "garbage-text", "missing", "empty", "bogus":
+			if !allowUsage {
+				return options[0]
+			}
+		case "mismatch", "toohigh":
+			if !allowPolicy {
+				return options[0]
+			}
+		case "forged", "unparsable", "B":
+			if !allowVerify {
+				return options[0]
+			}
+		}
+		return v
+	}
 	pA, pB := gen.NewPKI(gen.PKISpec{Seed: "pki-A"}), gen.NewPKI(gen.PKISpec{Seed: "pki-B"})
 	w := gen.NewWorld(pA, s)
 	binary.LittleEndian.PutUint64(w.Q.Xfam[:], gen.XfamFixed1|(s.Uint64()&gen.XfamFixed0))
@@ -99,6 +123,7 @@ func drawC19(t *rapid.T, dir string, toolQuote map[string][]byte) *c19Case {
 		w.Q.TeeTcbSvn[i] = byte(1 + s.Intn(200))
 	}
 	w.Q.TeeTcbSvn[1] = 0
+	w.HonestCollateral()
 	w.Build()
 	q := w.Q
 	write := func(name string, b []byte) string {
@@ -109,7 +134,7 @@ func drawC19(t *rapid.T, dir string, toolQuote map[string][]byte) *c19Case {
 		return p
 	}
 	// ---- quote ----
-	quoteKind := rapid.SampledFrom([]string{"valid", "valid", "valid", "valid", "forged", "unparsable", "empty", "intel-sample"}).Draw(t, "quote")
+	quoteKind := pick("quote", []string{"valid", "valid", "valid", "valid", "forged", "unparsable", "empty", "intel-sample"})
 	raw := w.Raw
 	rootIsA := true
 	switch quoteKind {
@@ -132,7 +157,7 @@ func drawC19(t *rapid.T, dir string, toolQuote map[string][]byte) *c19Case {
 		q, _ = gen.RefParse(raw)
 		rootIsA = false
 	}
-	inform := rapid.SampledFrom([]string{"bin", "bin", "proto", "textproto", "default", "bogus"}).Draw(t, "inform")
+	inform := pick("inform", []string{"bin", "bin", "proto", "textproto", "default", "bogus"})
 	data := raw
 	if inform == "proto" || inform == "textproto" {
 		if c.parse12 {
@@ -161,7 +186,11 @@ func drawC19(t *rapid.T, dir string, toolQuote map[string][]byte) *c19Case {
 	default:
 		c.args = append(c.args, "-inform="+inform)
 	}
-	switch rapid.IntRange(0, 9).Draw(t, "in") {
+	inCase := rapid.IntRange(0, 9).Draw(t, "in")
+	if inCase == 1 && !allowUsage {
+		inCase = 2
+	}
+	switch inCase {
 	case 0:
 		c.stdin = data
 		if rapid.Bool().Draw(t, "dash") {
@@ -203,9 +232,9 @@ func drawC19(t *rapid.T, dir string, toolQuote map[string][]byte) *c19Case {
 		}
 		cfgState := "absent"
 		if full {
-			cfgState = rapid.SampledFrom([]string{"absent", "absent", "absent", "match", "mismatch", "wronglen"}).Draw(t, "cfg-"+f.flag)
+			cfgState = pick("cfg-"+f.flag, []string{"absent", "absent", "absent", "match", "mismatch", "wronglen"})
 		}
-		flagState := rapid.SampledFrom([]string{"absent", "absent", "absent", "absent", "match", "mismatch", "nothex", "toolong"}).Draw(t, "flag-"+f.flag)
+		flagState := pick("flag-"+f.flag, []string{"absent", "absent", "absent", "absent", "match", "mismatch", "nothex", "toolong"})
 		switch cfgState {
 		case "match":
 			f.toCfg(cfg.Policy, append([]byte{}, actual...))
@@ -256,9 +285,9 @@ func drawC19(t *rapid.T, dir string, toolQuote map[string][]byte) *c19Case {
 	} {
 		cfgState := "absent"
 		if full {
-			cfgState = rapid.SampledFrom([]string{"absent", "absent", "ok", "toohigh", "wide"}).Draw(t, "cfg-"+sv.flag)
+			cfgState = pick("cfg-"+sv.flag, []string{"absent", "absent", "ok", "toohigh", "wide"})
 		}
-		flagState := rapid.SampledFrom([]string{"absent", "absent", "absent", "ok", "zero", "hex-ok", "toohigh", "wide", "garbage"}).Draw(t, "flag-"+sv.flag)
+		flagState := pick("flag-"+sv.flag, []string{"absent", "absent", "absent", "ok", "zero", "hex-ok", "toohigh", "wide", "garbage"})
 		high := uint32(sv.actual) + 1
 		if sv.actual == 65535 {
 			// cannot exceed: treat "toohigh" as ok
@@ -313,9 +342,9 @@ func drawC19(t *rapid.T, dir string, toolQuote map[string][]byte) *c19Case {
 	if q != nil {
 		cfgState := "absent"
 		if full {
-			cfgState = rapid.SampledFrom([]string{"absent", "absent", "match", "mismatch", "three"}).Draw(t, "cfg-rtmrs")
+			cfgState = pick("cfg-rtmrs", []string{"absent", "absent", "match", "mismatch", "three"})
 		}
-		flagState := rapid.SampledFrom([]string{"absent", "absent", "absent", "match", "partial-match", "mismatch", "three", "nothex"}).Draw(t, "flag-rtmrs")
+		flagState := pick("flag-rtmrs", []string{"absent", "absent", "absent", "match", "partial-match", "mismatch", "three", "nothex"})
 		all := [][]byte{q.Rtmr[0][:], q.Rtmr[1][:], q.Rtmr[2][:], q.Rtmr[3][:]}
 		hexes := func(l [][]byte) string {
 			var p []string
@@ -390,6 +419,9 @@ func drawC19(t *rapid.T, dir string, toolQuote map[string][]byte) *c19Case {
 	}
 	bundleKinds := []string{"A", "A", "A", "B", "A+B", "empty", "missing"}
 	flagRoots := rapid.IntRange(0, 2).Draw(t, "flagRoots")
+	if !allowVerify && rootIsA && flagRoots == 0 && rot == nil {
+		flagRoots = 1 // a generated quote needs its root configured somewhere to verify
+	}
 	cfgPaths, cfgInline := 0, 0
 	if rot != nil {
 		cfgPaths = rapid.IntRange(0, 1).Draw(t, "cfgPaths")
@@ -405,7 +437,7 @@ func drawC19(t *rapid.T, dir string, toolQuote map[string][]byte) *c19Case {
 	}
 	if cfgPaths > 0 {
 		before, beforeBroken := saveTrusted(), broken
-		p := mkBundle(rapid.SampledFrom(bundleKinds).Draw(t, "cfgBundle"), "cfg-bundle.pem")
+		p := mkBundle(pick("cfgBundle", bundleKinds), "cfg-bundle.pem")
 		rot.CabundlePaths = []string{p}
 		if flagRoots > 0 { // overridden: its content (and brokenness) does not count
 			trusted, broken = before, beforeBroken
@@ -414,7 +446,7 @@ func drawC19(t *rapid.T, dir string, toolQuote map[string][]byte) *c19Case {
 		}
 	}
 	if cfgInline > 0 {
-		k := rapid.SampledFrom([]string{"A", "A", "B", "empty"}).Draw(t, "inlineBundle")
+		k := pick("inlineBundle", []string{"A", "A", "B", "empty"})
 		switch k {
 		case "A":
 			rot.Cabundles = []string{string(pA.Root.PEM)}
@@ -431,7 +463,7 @@ func drawC19(t *rapid.T, dir string, toolQuote map[string][]byte) *c19Case {
 	if flagRoots > 0 {
 		var ps []string
 		for i := 0; i < flagRoots; i++ {
-			ps = append(ps, mkBundle(rapid.SampledFrom(bundleKinds).Draw(t, "flagBundle"), fmt.Sprintf("flag-bundle-%d.pem", i)))
+			ps = append(ps, mkBundle(pick("flagBundle", bundleKinds), fmt.Sprintf("flag-bundle-%d.pem", i)))
 			bundles++
 		}
 		c.args = append(c.args, "-trusted_roots="+strings.Join(ps, ","))
@@ -450,7 +482,7 @@ func drawC19(t *rapid.T, dir string, toolQuote map[string][]byte) *c19Case {
 		rot.GetCollateral, rot.CheckCrl = cfgGC, cfgCR
 	}
 	effBool := func(name string, cfgVal bool) bool {
-		switch rapid.SampledFrom([]string{"absent", "absent", "absent", "absent", "true", "false", "maybe"}).Draw(t, "flag-"+name) {
+		switch pick("flag-"+name, []string{"absent", "absent", "absent", "absent", "true", "false", "maybe"}) {
 		case "true":
 			c.args = append(c.args, "-"+name+"=true")
 			return true
@@ -468,14 +500,43 @@ func drawC19(t *rapid.T, dir string, toolQuote map[string][]byte) *c19Case {
 	}
 	gc := effBool("get_collateral", cfgGC)
 	cr := effBool("check_crl", cfgCR)
+	if cr && !gc && !allowUsage {
+		c.args = append(c.args, "-get_collateral=true")
+		gc = true
+	}
 	if cr && !gc {
 		c.fault(clsUsage, "check_crl without get_collateral")
 	}
-	localGetter := rapid.IntRange(0, 3).Draw(t, "localGetter") == 0
+	localGetter := rapid.IntRange(0, 4).Draw(t, "localGetter") == 0
 	if localGetter {
 		c.args = append(c.args, "-test_local_getter")
 	}
-	c.args = append(c.args, "-timeout=80ms", "-max_retry_delay=10ms")
+	// network: unreachable (the sandbox has none) or a fake PCS reached through HTTPS_PROXY
+	collFault := gen.Fault{Name: "none", Benign: true}
+	if gc && !localGetter && rapid.IntRange(0, 2).Draw(t, "fakePCS") > 0 {
+		c.netMode = "fake-pcs"
+		var cands []gen.Fault
+		for _, f := range gen.Faults {
+			if f.Benign || (f.MinLevel >= gen.LvlColl && f.NewPKI == nil) {
+				cands = append(cands, f)
+			}
+		}
+		collFault = rapid.SampledFrom(cands).Draw(t, "collateralFault")
+		w2 := *w
+		w2.TcbInfo.Levels = append([]gen.PlatformLevel{}, w.TcbInfo.Levels...)
+		w2.QeID.Levels = append([]gen.QeLevel{}, w.QeID.Levels...)
+		w2.QeID.Mrsigner = append([]byte{}, w.QeID.Mrsigner...)
+		now := time.Now()
+		w2.Times = verifyTimes(now)
+		collFault.ApplyPre(&w2)
+		w2.BuildCollateral()
+		collFault.ApplyPost(&w2)
+		c.resp = w2.Resp
+		c.args = append(c.args, "-timeout=1500ms", "-max_retry_delay=100ms")
+		c.desc = append(c.desc, "fake-pcs:"+collFault.Name)
+	} else {
+		c.args = append(c.args, "-timeout=80ms", "-max_retry_delay=10ms")
+	}
 	// ---- verification outcome ----
 	if canParse {
 		ok := false
@@ -489,16 +550,29 @@ func drawC19(t *rapid.T, dir string, toolQuote map[string][]byte) *c19Case {
 		}
 		if gc {
 			// collateral is fetched before the chain and the signatures are judged
-			if quoteKind == "intel-sample" && localGetter {
+			switch {
+			case quoteKind == "intel-sample" && localGetter:
 				c.fault(clsVerify, "recorded Intel collateral is expired / has no matching level")
-			} else {
+			case c.netMode == "fake-pcs" && quoteKind != "intel-sample":
+				lvl := gen.LvlColl
+				if cr {
+					lvl = gen.LvlCRL
+				}
+				if !collFault.Benign && lvl >= collFault.MinLevel {
+					if strings.HasSuffix(collFault.Name, "endpoint-down") {
+						c.fault(clsNetwork, "fake PCS: "+collFault.Name)
+					} else {
+						c.fault(clsVerify, "fake PCS serves collateral with "+collFault.Name)
+					}
+				}
+			default:
 				c.fault(clsNetwork, "collateral cannot be downloaded")
 			}
 		}
 	}
 	// ---- config file ----
 	if cfg != nil {
-		switch rapid.SampledFrom([]string{"binary", "text", "text", "garbage-binary", "garbage-text", "missing"}).Draw(t, "configFormat") {
+		switch pick("configFormat", []string{"binary", "text", "text", "garbage-binary", "garbage-text", "missing"}) {
 		case "binary":
 			b, _ := proto.Marshal(cfg)
 			c.args = append(c.args, "-config="+write("config.pb", b))
@@ -545,8 +619,19 @@ func (c *c19Case) allowed() map[int]bool {
 	return a
 }
 
+var thePCS *fakePCS
+
+func verifyTimes(now time.Time) verify.TimeSet {
+	return verify.TimeSet{PckCertChain: now, TcbInfo: now, QeIdentity: now, PckCrl: now, RootCaCrl: now}
+}
+
 func runTool(tool string, c *c19Case) (int, string, error) {
 	cmd := exec.Command(tool, c.args...)
+	cmd.Env = os.Environ()
+	if c.netMode == "fake-pcs" && thePCS != nil {
+		thePCS.set(c.resp)
+		cmd.Env = append(cmd.Env, thePCS.env()...)
+	}
 	cmd.Stdin = bytes.NewReader(c.stdin)
 	var stderr, stdout bytes.Buffer
 	cmd.Stderr, cmd.Stdout = &stderr, &stdout
@@ -583,6 +668,12 @@ func TestC19(t *testing.T) {
 	base := filepath.Join(gen.VerifDir(), ".build", "c19work", fmt.Sprint(sh))
 	_ = os.RemoveAll(base)
 	defer os.RemoveAll(base)
+	_ = os.MkdirAll(base, 0o755)
+	pcsSrv, err := startFakePCS(base)
+	if err != nil {
+		gen.HarnessError(t, "cannot start the fake PCS: %v", err)
+	}
+	thePCS = pcsSrv
 	n := 0
 	gen.Prop(t, "exit-codes", gen.N(1600, 60000), func(t *rapid.T) {
 		n++
@@ -598,6 +689,19 @@ func TestC19(t *testing.T) {
 			gen.HarnessError(t, "cannot execute the tool: %v", err)
 		}
 		allowed := c.allowed()
+		if !allowed[code] && code == 3 && c.netMode == "fake-pcs" && strings.Contains(stderr, "timeout") {
+			// a loaded machine can miss the short retry window: judge with a generous one
+			for i, a := range c.args {
+				if strings.HasPrefix(a, "-timeout=") {
+					c.args[i] = "-timeout=10s"
+				}
+			}
+			code, stderr, err = runTool(tool, c)
+			if err != nil {
+				gen.HarnessError(t, "cannot execute the tool: %v", err)
+			}
+			gen.Class("retried-with-long-timeout")
+		}
 		var al []int
 		for k := range allowed {
 			al = append(al, k)
@@ -634,6 +738,11 @@ func TestC19(t *testing.T) {
 			return
 		}
 		gen.Class(fmt.Sprintf("exit:%d", code))
+		gen.Class("net:" + c.netMode)
+		if c.netMode == "fake-pcs" {
+			gen.Class(fmt.Sprintf("fake-pcs:exit%d", code))
+			gen.NonTrivial("fake-pcs", strings.Join(c.desc, ";"))
+		}
 		gen.Class(fmt.Sprintf("fault-classes:%d", len(c.classes)))
 		if c.overrideBoth || strings.Contains(strings.Join(c.desc, " "), "quote=forged") {
 			gen.NonTrivial(strings.Join(c.desc, ";"), al)
